@@ -208,6 +208,9 @@ pub struct AtomicU32S { pub v: u32 }
 pub enum Ordering { Release, Acquire, Relaxed, AcqRel, SeqCst }
 impl AtomicU32S {
     pub fn store(&mut self, x: u32, o: Ordering) ensures final(self).v == x { self.v = x; }
+    pub fn fetch_add(&mut self, x: u32, o: Ordering) -> (r: u32)
+        ensures r == old(self).v, final(self).v == add32(old(self).v, x as int),
+    { let r = self.v; self.v = self.v.wrapping_add(x); r }
 }
 pub struct ChanSender<T> { pub sent: Ghost<Seq<T>> }
 pub struct ChanSendError { pub _p: u8 }
@@ -254,7 +257,8 @@ impl Clone for OutputHandle { fn clone(&self) -> (r: Self) ensures r == *self { 
 impl ReceiverDisposer {
 //@@ fn file=fe2o3-amqp/src/link/receiver.rs impl=`impl ReceiverDisposer` name=refresh_credit_if_needed
 //@@ selfmut
-//@@ subst `self.flow_state.lock.write()` => `&mut self.flow_state.lock` rule=R4
+//@@ subst `self.flow_state.lock.write()` => `&mut self.flow_state.lock` rule=optional-R4
+//@@ subst `self.flow_state.lock.read()` => `&self.flow_state.lock` rule=optional-R4
 //@@ subst `let handle: Handle = self .output_handle .clone() .ok_or(DispositionError::IllegalState)? .into();` => `let handle: Handle = output_to_handle(self.output_handle.clone().ok_or(DispositionError::IllegalState)?);` rule=R16
 //@@ subst `|_v0|` => `|_v0: ChanSendError|` rule=R5
 //@@ spec
@@ -274,6 +278,63 @@ impl ReceiverDisposer {
                             link_credit: Some(max), available: None, drain: false, echo: false, properties: None })))   // [C09.replenish.flow] and the sender is told: a flow with link-credit == max and the current delivery-count
                 }
             &&& fire && old(self).output_handle is None ==> r is Err
+        }),
+//@@ end
+}
+
+// ---- ReceiverInner: disposal counting and top-up through the link (C09) ----
+#[verifier::external_body]
+pub struct DeliveryInfo { _p: u8 }
+#[verifier::external_body]
+pub struct DeliveryState2 { _p: u8 }
+/// the receiver link endpoint as ReceiverInner sees it: send_flow = get_link_flow + queueing the flow (unit LINKFLOW, get_link_flow)
+pub struct RLinkS { pub flows: Ghost<Seq<(Option<u32>, Option<bool>, bool, bool)>>, pub disposed: Ghost<Seq<nat>> }
+impl RLinkS {
+    #[verifier::external_body]
+    pub fn send_flow(&mut self, writer: &mut ChanSender<LinkFrame>, link_credit: Option<u32>, drain: Option<bool>, echo: bool, include_properties: bool) -> (r: Result<(), DispositionError>)
+        ensures
+            r is Ok ==> final(self).flows@ == old(self).flows@.push((link_credit, drain, echo, include_properties)),
+            r is Err ==> final(self).flows@ == old(self).flows@,
+            final(self).disposed == old(self).disposed,
+    { unimplemented!() }
+    #[verifier::external_body]
+    pub fn dispose_all(&mut self, writer: &mut ChanSender<LinkFrame>, infos: Vec<DeliveryInfo>, settled: Option<bool>, state: DeliveryState2, batchable: bool) -> (r: Result<(), DispositionError>)
+        ensures
+            r is Ok ==> final(self).disposed@ == old(self).disposed@.push(infos@.len()),
+            final(self).flows == old(self).flows,
+    { unimplemented!() }
+}
+pub struct ReceiverInner { pub link: RLinkS, pub credit_mode: CreditMode, pub processed: AtomicU32S, pub outgoing: ChanSender<LinkFrame> }
+
+impl ReceiverInner {
+//@@ fn file=fe2o3-amqp/src/link/receiver.rs impl=`~impl<L>ReceiverInner<L>where` name=update_credit_if_auto
+//@@ selfmut
+//@@ subst `&self.outgoing` => `&mut self.outgoing` rule=R9
+//@@ spec
+    ensures
+        ({
+            let fire = old(self).credit_mode is Auto && processed >= old(self).credit_mode->Auto_0 / 2;
+            &&& !fire ==> r is Ok && *final(self) == *old(self)                                                // [C09.replenish.inner-threshold] no top-up below half of the maximum / in Manual mode
+            &&& fire ==> final(self).processed.v == 0
+                && (r is Ok ==> final(self).link.flows@ == old(self).link.flows@.push((Some(old(self).credit_mode->Auto_0), Some(false), false, false)))   // [C09.replenish.inner-top-up] at or above half: counter reset and a flow granting the full maximum (drain off) is sent
+        }),
+        final(self).credit_mode == old(self).credit_mode,
+//@@ end
+
+//@@ fn file=fe2o3-amqp/src/link/receiver.rs impl=`~impl<L>ReceiverInner<L>where` name=dispose_all
+//@@ selfmut
+//@@ subst `&self.outgoing` => `&mut self.outgoing` rule=R9
+//@@ subst `state: DeliveryState,` => `state: DeliveryState2,` rule=R11
+//@@ spec
+    requires
+        delivery_infos@.len() < 0x8000_0000, old(self).processed.v < 0x8000_0000,     // ASSUMED: fewer than 2^31 deliveries are disposed in one batch / pending since the last top-up
+    ensures
+        r is Ok ==> ({
+            let total = delivery_infos@.len() as int;
+            let fire = old(self).credit_mode is Auto && old(self).processed.v + total >= old(self).credit_mode->Auto_0 / 2;
+            &&& fire ==> final(self).processed.v == 0
+                    && final(self).link.flows@ == old(self).link.flows@.push((Some(old(self).credit_mode->Auto_0), Some(false), false, false))   // [C09.replenish.batch-counts-all] a batch disposal counts ALL its deliveries towards the top-up threshold (so disposing everything at once re-issues credit)
+            &&& !fire ==> final(self).processed.v == old(self).processed.v + total && final(self).link.flows@ == old(self).link.flows@
         }),
 //@@ end
 }
